@@ -10,7 +10,7 @@ pub const DIR_BOTH: u8 = 2;
 pub struct Plan {
     pub seed: u64,
     pub property: String,
-    /// "clean" | "finite" | "vanish" | "forge" | "forge_forget"
+    /// "clean" | "sparse" | "finite" | "vanish" | "forge" | "forge_forget"
     pub family: String,
     pub cfg: Cfg,
     pub clients: Vec<ClientPlan>,
